@@ -68,6 +68,27 @@ def apply_edit(tree, e, src_tree=None):
         if n is None:
             return False
         c.remove_class(n)
+    elif k == "replace_class":
+        # a class is replaced by a class of the same name but of the other kind (a short `type X = Real(...)` by a model
+        # with a component, and the other way round)
+        parent = get_class(tree, e["class"].rsplit(".", 1)[0]) if "." in e["class"] else tree
+        if parent is None:
+            return False
+        name = e["class"].rsplit(".", 1)[-1]
+        if e["to"] == "model":
+            n = A.Class(name=name, type="model")
+            s = A.Symbol(name="v", type=A.ComponentRef(name="Real"))
+            s.start = A.Primary(value=float(e["k"]))
+            n.add_symbol(s)
+        else:
+            n = A.Class(name=name, type="type")
+            arg = A.ClassModificationArgument(
+                value=A.ElementModification(component=A.ComponentRef(name="min"), modifications=[A.Primary(value=-float(e["k"]))]),
+                scope=None, redeclare=False)
+            n.extends = [A.ExtendsClause(component=A.ComponentRef(name="Real"),
+                                         class_modification=A.ClassModification(arguments=[arg]))]
+        parent.remove_class(c)
+        parent.add_class(n)
     elif k == "graft_class":
         src = get_class(src_tree, e["class"])
         if src is None:
@@ -180,7 +201,7 @@ class Engine:
                 ops.append({"op": "copy", "tree": t})
                 n_trees += 1
             elif r < 0.85:
-                ops.append({"op": rng.choice(EDITS + ["graft_class"]), "tree": t, "cls": rng.randrange(1000), "idx": rng.randrange(1000),
+                ops.append({"op": rng.choice(EDITS + ["graft_class", "replace_class"]), "tree": t, "cls": rng.randrange(1000), "idx": rng.randrange(1000),
                             "other": rng.randrange(8), "hub": rng.random() < 0.6})
             else:
                 ops.append({"op": "check", "tree": t, "cls": rng.randrange(1000),
@@ -206,9 +227,13 @@ class Engine:
 
     # -- flatten helpers ----------------------------------------------------------------------------
     @staticmethod
-    def flat(tree, cls, via="direct"):
+    def flat(tree, cls, via="direct", T=None):
+        """T: the pymoca.tree module instance to flatten with (the run's own for the trees under test, a pristine one
+        for every reference computation, see procs.tree_module); the SymPy / XML backends are bound to the shared one."""
         import pymoca.ast as A
-        import pymoca.tree as T
+
+        if T is None:
+            import pymoca.tree as T
 
         try:
             if via == "sympy":
@@ -241,6 +266,7 @@ class Engine:
             depth = [0]
             direct_done = set()
             uniq = [0]
+            sut_tree_mod = procs.tree_module()  # this run is one simulated process
 
             def replay(edits):
                 t = pickle.loads(pk)
@@ -255,8 +281,9 @@ class Engine:
                 """Flatten `cls` on tree i and on its replayed-log reference."""
                 if i in direct_done:
                     return None
-                got = self.flat(trees[i], cls, "direct" if via == "direct_last" else via)
-                want = self.flat(ref_tree(i), cls, "direct" if via in ("copy", "direct", "direct_last") else via)
+                got = self.flat(trees[i], cls, "direct" if via == "direct_last" else via, sut_tree_mod)
+                want = self.flat(ref_tree(i), cls, "direct" if via in ("copy", "direct", "direct_last") else via,
+                                 procs.tree_module())
                 if via == "direct_last":
                     direct_done.add(i)
                 log.add(0, i, "check", "%s %s %s %s" % (cls, via, got[0], want[0]))
@@ -330,6 +357,8 @@ class Engine:
                         continue
                     e["name"] = list(node.classes)[op["idx"] % len(node.classes)]
                 src_i = None
+                if k == "replace_class":
+                    e["to"] = "model" if getattr(node, "type", "") == "type" else "type"
                 if k == "graft_class":
                     donors = [j for j in range(len(trees)) if j != i and j not in direct_done]
                     if not donors:
